@@ -133,6 +133,12 @@ type Program struct {
 	// overwritten with recognisable poison values as soon as the first user
 	// function is entered: an argument that is read after that moment shows.
 	Bare bool `json:"bare,omitempty"`
+	// BareMix (Bare programs, 0 = off): every BareMix-th argument is a call
+	// instead of a bare identifier, and that call overwrites the argument
+	// variables that precede it in the directive with the same poison values: an
+	// argument that is not a call and is read after a later argument's call
+	// (not in source order) shows.
+	BareMix int `json:"bare_mix,omitempty"`
 	// Base is the import path of the program's package (set by Files); programs
 	// with imported functions have helper packages Base/ha, Base/hb, Base/hc.
 	Base string `json:"-"`
